@@ -12,7 +12,7 @@ CLAIMED = {
          "DESIGN.md §7 C10"),
  "C12": ("runtime monitoring: reference-model monitor (harness line splitter) at the executor boundary + relational monitor (run over [f1..fk] vs run over the concatenation) + fault injection of invalid UTF-8 lines",
          "Exploration. FileExecutor is run over generated files (LF/CRLF/empty/unterminated/long lines, 1-5 files); records and statistics.total_lines must equal the harness' own splitting of the bytes; SELECT / aggregate / join statements over split files must print exactly what they print over the concatenation; a line that is not UTF-8 (main or joined file) must not silently drop later lines.",
-         "Trusted: the harness' line splitter (LF / CRLF) and serde_json for decoding printed records. LIMIT is excluded here (C07).",
+         "Trusted: the harness' line splitter (LF / CRLF) and serde_json for decoding printed records. LIMIT is excluded here (C07). Lines with byte-order marks, NUL, content ending in CR, invalid UTF-8 at any index 0..70 of the main or joined file.",
          "DESIGN.md §7 C12"),
  "C13": ("runtime monitoring: reference-grammar monitor - generator-owned ASTs printed with minimal parentheses, parse() result compared structurally (model::ExpressionTree -> harness AST); exhaustive operator-pair enumeration + random trees",
          "Exploration with an exhaustive operator-pair scope. The harness prints its own AST with minimal parentheses under the standard grammar stated in the property and requires parsing::parse to recover exactly that AST; every (outer operator, inner operator, operand position) triple over 20 operator shapes, negative operands after every binary operator and one-element IN lists are enumerated in every run, plus random trees to depth 6 with redundant parentheses.",
@@ -64,7 +64,7 @@ CLAIMED.update({
          "DESIGN.md §7 C04"),
  "C05": ("runtime monitoring: differential monitor - the engine's join result vs the engine's own result over harness-paired rows written as one pre-joined table; fault injection of missing file / table / column",
          "Exploration. Two standard tables, keys of every scalar type incl. NULL / duplicated / absent keys, INNER / OUTER, ON in either orientation, SELECT / DISTINCT / aggregate statements over both sides' columns with qualified and unqualified names; `*` column order and clash qualification.",
-         "Trusted: the nested-loop pairing (equal non-NULL keys, r then s order, NULL-extended rows for OUTER non-aggregates); each side's rows and the statement evaluation are the engine's own.",
+         "Trusted: the nested-loop pairing (equal non-NULL keys, r then s order, NULL-extended rows for OUTER non-aggregates); each side's rows and the statement evaluation are the engine's own. DEFAULT columns, twin columns differing only in letter case, blank / foreign / repeated lines on both sides, CRLF and unterminated joined files, fault cases with LIMIT.",
          "DESIGN.md §7 C05"),
  "C06": ("runtime monitoring: metamorphic monitor - reference-certified non-admitted lines are interleaved at random positions (main and joined file); batch and per-line incremental outputs must be unchanged",
          "Exploration. Plain / DISTINCT / LIMIT / aggregate / join statements over standard tables (optionally with a NOT NULL column); 1-10 noise lines per case certified by the reference extraction.",
@@ -72,7 +72,7 @@ CLAIMED.update({
          "DESIGN.md §7 C06"),
  "C07": ("runtime monitoring: relational monitor at the executor boundary - for every n the LIMIT n run must print the first n records of the unlimited run and consume no input beyond the line producing the n-th row",
          "Exploration, exhaustive over n in 0..rows+1 per case. Plain / DISTINCT / aggregate / join fan-out statements over 1-3 files, NULL-only rows included.",
-         "Trusted: line provenance of rows is taken from per-line execution of the unlimited statement.",
+         "Trusted: line provenance of rows is taken from per-line execution of the unlimited statement. The executor's quiet mode (print_result off) must consume exactly what the printing run consumes.",
          "DESIGN.md §7 C07"),
  "C08": ("runtime monitoring: relational monitor - SELECT DISTINCT output vs the same statement without DISTINCT filtered to first occurrences under the reference tuple equality; batch result and every incremental refresh",
          "Exploration. Select, join and aggregate DISTINCT (with/without HAVING), tuples differing by NULL / one column / -0.0 vs 0.0 / recurring after long gaps, large-set family with 150-400 distinct tuples, huge sets of 2^10..2^17 distinct rows in every quick run (..2^20 thorough), hundreds of lines over up to 300 keys in one case of 300.",
@@ -80,15 +80,15 @@ CLAIMED.update({
          "DESIGN.md §7 C08"),
  "C09": ("runtime monitoring: crash monitor at the executor boundary (catch_unwind, overflow checks on, panic-site signatures) over hostile data and statements in all output formats; one subprocess per time zone, ASan and valgrind in thorough",
          "Exploration. Standard tables with hostile cell/literal pools, C01's and C02's generators, arbitrary bytes, and a fixed corpus of statements over NaN / inf / i64 extremes / DST-gap times / huge intervals; outcome must be output or Err.",
-         "Trusted: silent wraps appear as overflow panics of the chk profile (`as` casts are covered by C01/C03 value oracles); hangs via the driver's watchdog.",
+         "Trusted: a calendar walk (every month, five times of day) in 12 time zones also in the quick tier; silent wraps appear as overflow panics of the chk profile (`as` casts are covered by C01/C03 value oracles); hangs via the driver's watchdog.",
          "DESIGN.md §7 C09"),
  "C11": ("runtime monitoring: history monitor - lines fed one at a time with the follow-mode config; after every line the shown table / emitted rows are compared with a fresh batch run over exactly that prefix",
          "Exploration, every prefix length k per case. Statements without LIMIT incl. DISTINCT, HAVING, PERCENTILE, COUNT(DISTINCT), aggregate DISTINCT over 3-30 lines.",
-         "Trusted: batch = update-only passes + one aggregate_result on a fresh engine.",
+         "Trusted: batch = update-only passes + one aggregate_result on a fresh engine. Aggregate columns of the two tables are compared bit for bit (REAL incl. the sign of zero), group-key columns by value; big cases (hundreds of lines) compare at ~35 sampled prefixes.",
          "DESIGN.md §7 C11"),
  "C15": ("runtime monitoring: metamorphic monitor - 11 permutations of the input per case must give the same aggregate table; for every cut point the result over A||B must equal the key-wise combination of the results over A and B",
          "Exploration. Order-insensitive aggregates with any GROUP BY / WHERE / HAVING over exactly summable data.",
-         "Trusted: the combiner (add / min / max / union); REAL inputs are dyadic rationals.",
+         "Trusted: the combiner (add / min / max / union); REAL inputs are dyadic rationals. A statement that fails on the input as given must fail for every order; integers around 2^53 / 2^62 with MIN / MAX / COUNT / PERCENTILE only (running sums of such values overflow order-dependently).",
          "DESIGN.md §7 C15"),
 })
 
